@@ -38,6 +38,7 @@ def disturbers(tier):
         "cancel0+flush": [[cancel(rid("A", 0))], [FLUSH]],
         "cancel0+flush+flush": [[cancel(rid("A", 0))], [FLUSH], [FLUSH]],
         "call+flush": [[CALL], [FLUSH]],
+        "cancel0+cancel1+flush": [[cancel(rid("A", 0))], [cancel(rid("A", 1))], [FLUSH]],
     }
     if tier == "thorough":
         ds["cgroupM"] = [[cgroup("M")]]
